@@ -61,3 +61,17 @@ package flowcontrols
 //@   loop 1: invariant [keys] forall k ref :: {smhas(FCM, k)} smhas(FCM, k) <==> old(smhas(FCM, k)) || (typeis(k, "string") && schemaListed(take(NEWS, idx), unbox(k, "string")))
 //@   loop 1: invariant [kept] forall k ref :: {smhas(FCM, k)} old(smhas(FCM, k)) ==> smget(FCM, k) == old(smget(FCM, k))
 //@   loop 1: invariant [none_stopped] fccstopped == old(fccstopped)
+
+// A request is metered by the remote (global) limiter only when the cluster is in remote mode, the schema has a non-local
+// strategy, the limiter clients exist and are ready for this cluster and the remote limiter has been synced; in every other
+// case by the schema's local limiter (C09: an unavailable limiter service must degrade to the local limits).
+//@ const LFCM = &f.flowControls.data
+//@ const theCache = smget(LFCM, box(name))
+//@ const remoteUsable = f.rateLimiter == "remote" && len(strategyOf(theCache)) != 0 && strategyOf(theCache) != "local" && f.clientSets != nil && csReady(f.clientSets, f.cluster) && remoteOf(theCache) != nil
+
+//@ func (*upstreamLimiter).Load props C09
+//@   requires [wf] f.flowControls != nil && (forall k ref :: {smhas(LFCM, k)} smhas(LFCM, k) ==> smget(LFCM, k) != nil)
+//@   modifies f.switchToLocalReason[*]
+//@   ensures [found] result1 == old(smhas(LFCM, box(name))) && (!result1 ==> result == nil)
+//@   ensures [remote_when_usable] result1 && old(remoteUsable) ==> result == old(remoteOf(theCache))
+//@   ensures [local_otherwise] result1 && !old(remoteUsable) ==> result == old(localOf(theCache))
